@@ -5,11 +5,14 @@ claim('C03', 'Coq theorems (model interpreters vs arithmetic specification) + ex
       'bijection. The model is the reference; the library is compared with the extracted model on exhaustive 8-bit domains, '
       'boundaries and PRNG samples, so a disagreement is itself the failing input. Floats, strings and composites are tied '
       'by correspondence only (stated as partial in the evidence).', 'DESIGN.md 6/C03')
-claim('C05', 'Coq theorem over all constructs (induction on con) + correspondence + sizeof/build/parse oracle',
+claim('C05', 'Coq theorems (sizeof discipline over all constructs; exactness by induction over the closed sequential fragment) + correspondence + sizeof/build/parse oracle',
       'sizeof_nokey: for EVERY construct of the model (59 classes, any nesting), context and path, sizeof never reports a missing '
-      'key as KeyError/AttributeError - proved by induction on the construct syntax. Exactness of the answer (bytes advanced by '
-      'build and by parse with trailing data = sizeof) is decided by the oracle on the implementation over context-dependent '
-      'templates x key subsets and generated constructs, and the sizeof outcome is compared with the extracted model.', 'DESIGN.md 6/C05')
+      'key as KeyError/AttributeError. build_size_exact / C05_exact_closed: for every construct of the closed sequential fragment '
+      '(FormatField, BytesInteger, Bytes, Pass, Const, Renamed, Struct, Sequence, Array, Prefixed, Padded, Aligned, FixedSized, any depth) '
+      'a sizeof answer n is the number of bytes every successful build produces and the number parse consumes when those bytes are parsed '
+      'back with arbitrary trailing data (induction on the syntax; the parse half through C01). For context-dependent and bit-level '
+      'constructs exactness is decided by the oracle on the implementation over templates x key subsets and generated constructs, and '
+      'the sizeof outcome is compared with the extracted model.', 'DESIGN.md 6/C05')
 claim('C08', 'Coq theorems for every inner construct and unbounded nesting depth + correspondence + independent region oracle',
       'Region theorems for FixedSized / Prefixed(+-includelength) / NullStripped: the outer position and the bytes the inner construct '
       'sees are fixed before it runs, for EVERY inner construct; tell_absolute_at_any_depth: by induction on the nest, Tell at any depth '
@@ -75,7 +78,8 @@ claim('C02', 'Coq theorems (round trip by induction; unique / canonical encoding
       'on the implementation for non-canonical inputs (non-minimal VarInts, all flag bytes, padding, trailing bytes in regions, duplicate '
       'labels, alternatives), generated constructs x mutated encodings, and 15 gallery formats; three recorded known findings.', 'DESIGN.md 6/C02')
 claim('C06', 'Coq theorems on the stream helpers and leaves + outcome-class correspondence + truncation sweep + k-th-operation fault injection',
-      'The stream helpers fail only with StreamError and never return fewer bytes than requested; integer leaves and VarInt reject every truncated '
+      'parse_only_construct_errors: for every construct of the closed sequential fragment and every input whatsoever, parse returns a value or a '
+      'ConstructError subclass, never a foreign exception (induction on the syntax). The stream helpers fail only with StreamError and never return fewer bytes than requested; integer leaves and VarInt reject every truncated '
       'input with StreamError; ExplicitError escapes Select/GreedyRange/Peek; sizeof never leaks KeyError (all constructs). On the library: generated '
       'constructs x random/boundary/huge-length/mutated inputs must give a value or a ConstructError (outcome class compared with the extracted '
       'model); every strict prefix of canonical encodings of strict constructs must be StreamError; every k-th stream operation is made to raise / '
